@@ -41,5 +41,109 @@ def check(ctx: Ctx) -> None:
         if attached and other.get("fce"):
             ctx.ob("C07.keep", f"{lt},{rt}", "902" in str(out[4]),
                    f"then_also_composition({lt}, {rt}) drops the partner's own collected expression: {out[4]!r}", file=FILE, function="_then_also")
+    template_rule(ctx)
     report_sweep(ctx, ("C07.tree",), "src/ahbicht/expressions/expression_builder.py")
     ctx.assume("precedence of the re-parse is the documented one (C01)")
+
+
+def template_rule(ctx: Ctx) -> None:
+    """C07.template: every string the FormatConstraintExpressionBuilder can produce, as literal chunks and holes; an
+    already collected expression (hole) is the whole string or directly enclosed in parentheses, so the re-parse regroups
+    nothing whatever the precedence; operands contributing nothing leave no text and no dangling operator."""
+    import re
+
+    from ..fdai import Interp
+    from ..fdvalues import Obj, Opaque, PyRaise, StrT, explore
+    from ..tables import CFV
+
+    model = ctx.model
+    FCB = "ahbicht.expressions.expression_builder.FormatConstraintExpressionBuilder"
+    NODES = "ahbicht.models.condition_nodes"
+    cls = model.cls(FCB)
+    letters = {}
+    for meth, member in (("land", "LAND"), ("lor", "LOR"), ("xor", "XOR")):
+        letters[meth] = model.enum_members(model.cls("ahbicht.models.enums.LogicalOperator")).get(member)
+    want_letter = {"land": "U", "lor": "O", "xor": "X"}
+
+    def operand(it, kind, n):
+        neutral = it.enum(CFV, "NEUTRAL")
+        if kind == "fc":
+            return Obj(f"{NODES}.UnevaluatedFormatConstraint", {"conditions_fulfilled": neutral, "condition_key": f"90{n}"})
+        if kind == "ec+":
+            return Obj(f"{NODES}.EvaluatedComposition", {"conditions_fulfilled": it.enum(CFV, "FULFILLED"), "hint": None,
+                                                        "format_constraints_expression": StrT((Opaque(f"E{n}", truthy=True),))})
+        if kind == "ec-":
+            return Obj(f"{NODES}.EvaluatedComposition", {"conditions_fulfilled": it.enum(CFV, "FULFILLED"), "hint": None, "format_constraints_expression": None})
+        if kind == "rc":
+            return Obj(f"{NODES}.RequirementConstraint", {"conditions_fulfilled": it.enum(CFV, "UNFULFILLED"), "condition_key": "1"})
+        return Obj(f"{NODES}.Hint", {"conditions_fulfilled": neutral, "condition_key": "501", "hint": "h"})
+
+    def render(v):
+        if v is None:
+            return None
+        if isinstance(v, str):
+            return v
+        return "".join(p if isinstance(p, str) else "§" + p.label[1:] + "§" if isinstance(p, Opaque) and p.label.startswith("E") else "§?§" for p in v.parts)
+
+    alt = {"fc": lambda n: rf"(\[90{n}\]|\(\[90{n}\]\))", "ec+": lambda n: rf"\(§{n}§\)"}
+    solo = {"fc": lambda n: rf"(\[90{n}\]|\(\[90{n}\]\))", "ec+": lambda n: rf"(§{n}§|\(§{n}§\))"}
+    for meth in ("land", "lor", "xor"):
+        fn = model.find_method(cls, meth)
+        ctx.require(fn is not None, f"anchor vanished: {FCB}.{meth}")
+        ctx.ob("C07.chain", f"{meth}->letter", letters[meth] == want_letter[meth], f"LogicalOperator for {meth} has the value {letters[meth]!r}, the grammar's operator letter is {want_letter[meth]!r}",
+               file="src/ahbicht/models/enums.py")
+        for lk in ("fc", "ec+", "ec-", "rc", "hint"):
+            for rk in ("fc", "ec+", "ec-", "rc", "hint"):
+                def run(ch, lk=lk, rk=rk, meth=meth):
+                    it = Interp(model, ch)
+                    try:
+                        b = it.call(it.module_value(cls.module, cls.name), [operand(it, lk, 1)], {}, None, None)
+                        b2 = it.call(it.getattr(b, meth, None, None), [operand(it, rk, 2)], {}, None, None)
+                        return ("ret", render(it.call(it.getattr(b2, "get_expression", None, None), [], {}, None, None)))
+                    except PyRaise as err:
+                        return ("raise", err.exc.cls)
+
+                outs = sorted({o for _, o in explore(run)}, key=repr)
+                ctx.count()
+                lc, rc_ = lk in alt, rk in alt
+                if lc and rc_:
+                    pattern = rf"^{alt[lk](1)} {want_letter[meth]} {alt[rk](2)}$"
+                elif lc:
+                    pattern = rf"^{solo[lk](1)}$"
+                elif rc_:
+                    pattern = rf"^{solo[rk](2)}$"
+                else:
+                    pattern = None
+                ok = all(o[0] == "ret" and ((o[1] is None or o[1] == "") if pattern is None else (isinstance(o[1], str) and re.match(pattern, o[1]) is not None)) for o in outs)
+                ctx.ob("C07.template", f"{meth}:{lk},{rk}", ok,
+                       f"FormatConstraintExpressionBuilder({lk}).{meth}({rk}) can produce {[o[1] if o[0] == 'ret' else o for o in outs]} "
+                       f"(§n§ = an already collected expression); allowed shape: {pattern or 'no expression'} - a collected expression must stay enclosed in its own "
+                       "parentheses and contribute-nothing operands must leave no text", file="src/ahbicht/expressions/expression_builder.py", line=fn.node.lineno, function=f"{cls.name}.{meth}")
+                if meth == "land" and lk == "ec+" and rk == "ec+":
+                    ctx.sample({"template": [o[1] for o in outs]})
+    # the bracket-stripping pattern only removes a redundant pair around one key
+    from .. import regexlang as R
+
+    pat_expr = model.class_attr(cls, "_one_key_surrounded_by_brackets_pattern")
+    pats = [n for n in ast_walk_calls(cls) if n]
+    for call in pats:
+        text = call.args[0].value
+        parsed = R.parse(text)
+        ref = R.parse(r"\(\[\d+\]\)")
+        diff = R.difference_witness(parsed, ref)
+        ctx.count()
+        ctx.ob("C07.strip", "pattern", diff is None or R.inclusion_witness(parsed, ref) is None,
+               f"the bracket-stripping pattern /{text}/ also matches {diff[0]!r}: it would remove brackets that are not a redundant pair around a single key" if diff else "",
+               file="src/ahbicht/expressions/expression_builder.py", line=call.lineno)
+
+
+def ast_walk_calls(cls):
+    import ast
+
+    from ..srcmodel import dotted
+
+    out = []
+    for n in ast.walk(cls.node):
+        if isinstance(n, ast.Call) and (dotted(n.func) or "") == "re.compile" and n.args and isinstance(n.args[0], ast.Constant) and isinstance(n.args[0].value, str):
+            out.append(n)
+    return out
